@@ -101,13 +101,17 @@ func (p payload) wire() string {
 		return "AAAAA"
 	case "badp": // padding in the middle
 		return "AA=A"
+	case "bv": // a decodable prefix (the base64 of b) followed by a quantum of garbage
+		return base64.StdEncoding.EncodeToString(p.b) + "!!!!"
+	case "bd": // a decodable prefix followed by one dangling character
+		return base64.StdEncoding.EncodeToString(p.b) + "A"
 	}
 	return ""
 }
 
 func (p payload) field() string {
-	if p.kind == "v" {
-		return "v" + hex.EncodeToString(p.b)
+	if p.kind == "v" || p.kind == "bv" || p.kind == "bd" {
+		return p.kind + hex.EncodeToString(p.b)
 	}
 	return p.kind
 }
@@ -123,6 +127,13 @@ func parsePayload(s string) (payload, error) {
 			return payload{}, fmt.Errorf("bad payload %q", s)
 		}
 		return payload{kind: "v", b: b}, nil
+	}
+	if strings.HasPrefix(s, "bv") || strings.HasPrefix(s, "bd") {
+		b, err := hex.DecodeString(s[2:])
+		if err != nil || len(b) == 0 {
+			return payload{}, fmt.Errorf("bad payload %q", s)
+		}
+		return payload{kind: s[:2], b: b}, nil
 	}
 	return payload{}, fmt.Errorf("bad payload %q", s)
 }
@@ -1189,6 +1200,19 @@ func runServer(r *common.Run, c srvCase, class string) error {
 	if perr != nil {
 		r.Fail("server-output-wellformed", "xml", lines, perr.Error())
 	}
+	for _, x := range sent {
+		if strings.HasPrefix(x, "fail/") {
+			ok := false
+			for _, d := range definedConds {
+				if x == "fail/"+d {
+					ok = true
+				}
+			}
+			if !ok {
+				r.Fail("server-failure-condition-defined", x, lines, "the receiving side refused with a <failure/> that carries no defined condition; an initiating entity cannot tell why")
+			}
+		}
+	}
 	consumed := len(delivered)
 	for _, a := range advertised {
 		if strings.HasSuffix(a, "-PLUS") {
@@ -1214,6 +1238,37 @@ func runServer(r *common.Run, c srvCase, class string) error {
 		if !ok {
 			r.Fail("server-mechanism-offered", "stepped-not-advertised", lines, fmt.Sprintf("mechanism %q is stepped but was not advertised (%q)", t.used, advertised))
 		}
+	}
+	// an <auth/> that names a mechanism the receiving side did not offer ends the exchange, with
+	// <invalid-mechanism/>, whatever came before (independent of the Authn bit)
+	for i := 0; res.called > 0 && i < consumed && i < len(c.peer); i++ {
+		if c.peer[i][0] != 'A' && c.peer[i][0] != 'R' {
+			break // the exchange ends at this element anyway
+		}
+		if c.peer[i][0] != 'A' || !strings.Contains(c.peer[i], "/") {
+			continue
+		}
+		name := decName(c.peer[i][1:strings.Index(c.peer[i], "/")])
+		offered := false
+		for _, a := range advertised {
+			if a == name && name != "" {
+				offered = true
+			}
+		}
+		if offered {
+			continue
+		}
+		lastSent := ""
+		if len(sent) > 0 {
+			lastSent = sent[len(sent)-1]
+		}
+		switch {
+		case consumed > i+1:
+			r.Fail("server-unoffered-mechanism-refused", "exchange-continued", lines, fmt.Sprintf("<auth mechanism=%q/> was not offered, yet the receiving side went on to read another element", name))
+		case errc != "write" && res.panicV == "" && lastSent != "fail/invalid-mechanism":
+			r.Fail("server-unoffered-mechanism-refused", "not-refused", lines, fmt.Sprintf("<auth mechanism=%q/> was not offered and was answered with %q instead of <invalid-mechanism/>", name, lastSent))
+		}
+		break
 	}
 	sessAuthn := res.state&xmpp.Authn != 0
 	if authn != sessAuthn {
@@ -1255,6 +1310,16 @@ func runServer(r *common.Run, c srvCase, class string) error {
 			}
 			if !ok || name != t.used && !multiAuth(c.peer[:consumed]) {
 				r.Fail("server-mechanism-offered", "auth-unconfigured", lines, "authenticated with mechanism "+name+" (stepped: "+t.used+")")
+			}
+			for i := la; i < consumed; i++ {
+				pl := c.peer[i][1:]
+				if c.peer[i][0] == 'A' {
+					pl = c.peer[i][strings.Index(c.peer[i], "/")+1:]
+				}
+				if strings.HasPrefix(pl, "b") {
+					r.Fail("server-authn-undecodable-payload", "payload="+pl[:2], lines, "authenticated although a payload of the exchange was not valid base64")
+					break
+				}
 			}
 			for i := la + 1; i < consumed; i++ {
 				if c.peer[i][0] != 'R' {
@@ -1455,6 +1520,8 @@ func plainPayloads() []string {
 	return []string{
 		mk("", "user", "secret"), mk("", "user", "wrong"), mk("admin", "user", "secret"), mk("", "other", "secret"),
 		mk("user", "secret"), mk("", "user", "secret", "x"), mk("", "", ""), "-", "eq", "sh", "bad",
+		// undecodable, but the decodable prefix is the accepted credentials
+		"b" + mk("", "user", "secret"), "bd" + mk("", "user", "secret")[1:], "b" + mk("", "user", "secretX"), "bd" + mk("", "user", "secretXY")[1:],
 	}
 }
 
@@ -1552,6 +1619,11 @@ func Run(r *common.Run) error {
 
 	// ---- several sessions on one feature value ----
 	genConcurrent(r, rnd)
+	genConcMixed(r, rnd)
+	genConcClientMixed(r, rnd)
+	if !r.Race() {
+		genProbes(r)
+	}
 	if r.Race() {
 		return nil
 	}
@@ -2047,7 +2119,7 @@ func genRoundC(r *common.Run, rnd *common.Rand, pol policies) {
 	}
 	// ---- payloads at the boundaries of the two base64 decoders, both roles ----
 	sscripts := srvStepScripts()
-	for _, pl := range []string{"eq", "sh1", "sh", "sh3", "bad", "bad5", "badp"} {
+	for _, pl := range []string{"eq", "sh1", "sh", "sh3", "bad", "bad5", "badp", "bv01", "bd0102", "bv" + hex.EncodeToString([]byte("\x00user\x00secret"))} {
 		for si, sc := range cliStepScripts() {
 			for _, peer := range [][]string{{"c" + pl}, {"c" + pl, "s-"}, {"cv01", "c" + pl}, {"cv01", "c" + pl, "s-"}, {"s" + pl}, {"cv01", "s" + pl}, {"cv01", "cv02", "s" + pl}} {
 				_ = runClient(r, cliCase{mechs: []string{"M1"}, adv: []string{"M1"}, steps: sc, peer: peer}, fmt.Sprintf("cli-b64-%d", si))
@@ -2154,7 +2226,9 @@ func replayLine(r *common.Run, l string) error {
 		return out, nil
 	}
 	switch {
-	case f[0] == "concs" || f[0] == "concc":
+	case f[0] == "gate" || f[0] == "gaterun" || f[0] == "gs2" || f[0] == "opts" || f[0] == "optstls" || f[0] == "failc":
+		return replayProbe(r, l)
+	case f[0] == "concs" || f[0] == "concc" || f[0] == "concm" || f[0] == "concx":
 		return replayConc(r, f)
 	case f[0] == "clie" && len(f) == 7:
 		st, err := steps(f[5])
